@@ -62,6 +62,38 @@ type Op struct {
 type Prog struct {
 	Ops    []Op `json:"ops"`
 	Native bool `json:"native,omitempty"`
+	// ViaSource: a native program that reaches the engine as an ActionSource / GuardSource for the harness's own
+	// interpreter ("gonative", GoInterp) instead of as a FuncAction literal
+	ViaSource bool `json:"via_source,omitempty"`
+}
+
+// GoInterp is an interpreter written in Go: its "source" is a *Prog, executed as the program's native rendering.
+// A specification may name any interpreter the host registers; not all of them copy the bindings they are given.
+type GoInterp struct{}
+
+func (GoInterp) Compile(ctx context.Context, code interface{}) (interface{}, error) {
+	p, ok := code.(*Prog)
+	if !ok {
+		return nil, fmt.Errorf("gonative: source is a %T, not a program", code)
+	}
+	return p.NativeAction(), nil
+}
+
+func (GoInterp) Exec(ctx context.Context, bs match.Bindings, props core.StepProps, code interface{}, compiled interface{}) (*core.Execution, error) {
+	a, ok := compiled.(*core.FuncAction)
+	if !ok {
+		p, isProg := code.(*Prog)
+		if !isProg {
+			return nil, fmt.Errorf("gonative: source is a %T, not a program", code)
+		}
+		a = p.NativeAction().(*core.FuncAction)
+	}
+	return a.F(ctx, bs, props)
+}
+
+// NativeSource renders a native program as a source for the "gonative" interpreter.
+func (p *Prog) NativeSource() *core.ActionSource {
+	return &core.ActionSource{Interpreter: "gonative", Source: p}
 }
 
 func P(native bool, ops ...Op) *Prog { return &Prog{Ops: ops, Native: native} }
@@ -85,6 +117,9 @@ func (p *Prog) String() string {
 	l := "js"
 	if p.Native {
 		l = "go"
+		if p.ViaSource {
+			l = "gosrc"
+		}
 	}
 	return l + "{" + strings.Join(parts, "; ") + "}"
 }
